@@ -697,7 +697,7 @@ func (p *Program) c18CollectorReportsAbsent(fn *ssa.Function) (problems []string
 	if look == nil {
 		return []string{"no per-source lookup returning (obj, found, err) in " + shortFuncID(fn)}
 	}
-	found := pfExtractOf(look, 1)
+	found := c11ExtractOf(look, 1)
 	if found == nil {
 		return []string{"the found result of the source lookup is ignored in " + shortFuncID(fn)}
 	}
